@@ -49,15 +49,7 @@ def _task(args):
         c = cls(src)
         t0 = time.time()
         res, info = run_contract(c, src, mode)
-        out = []
-        for r in res:
-            sig = None
-            if r['status'] == 'failed' and r.get('_model') is not None:
-                try:
-                    sig = c.signature(r['_ob'], r['_model'])
-                except Exception as e:  # noqa
-                    sig = {'signature-error': repr(e)}
-            out.append({k: v for k, v in r.items() if not k.startswith('_')} | {'signature': sig})
+        out = [{k: v for k, v in r.items() if not k.startswith('_')} for r in res]
         info['wall_s'] = round(time.time() - t0, 2)
         info['contract'] = cname
         return out, info
@@ -65,11 +57,27 @@ def _task(args):
         return [], {'contract': cname, 'mode': mode, 'status': 'crash', 'reason': traceback.format_exc()}
 
 
+class _NoDaemonProcess(mp.get_context('fork').Process):
+    # task processes fork their own solver workers
+    @property
+    def daemon(self):
+        return False
+
+    @daemon.setter
+    def daemon(self, value):
+        pass
+
+
+class _NoDaemonContext(type(mp.get_context('fork'))):
+    Process = _NoDaemonProcess
+
+
 def run_tasks(tasks, jobs):
     if not tasks:
         return []
-    ctx = mp.get_context('fork')
-    with ctx.Pool(min(jobs, len(tasks))) as pool:
+    import multiprocessing.pool
+    with multiprocessing.pool.Pool(min(jobs, len(tasks)), context=_NoDaemonContext()) as pool:
+        # heavy functions first
         return pool.map(_task, tasks, chunksize=1)
 
 
